@@ -103,15 +103,24 @@ func (p *Policy) cacheFeePerByte(ic *interop.Context, value int64) {
 			_, err := systemInterop.DAO.Persist()""")])]),
  ("addblock-index-check-rewritten", ["C06"], "AddBlock: the index check compares the other way round through a renamed local",
   [("pkg/core/blockchain.go", [rn("expectedHeight", "nextIndex"), ("if nextIndex != block.Index {", "if block.Index != nextIndex {")])]),
- ("put-early-return-split", ["C20"], "Queue.Put: the compound slot condition split into nested ifs, locals renamed",
+ ("put-early-return-split", ["C20"], "Queue.Put: the slot tests bound to locals, the compound condition split",
   [("pkg/network/bqueue/queue.go", [("""	if bq.queue[pos] == bq.nilQ || bq.queue[pos].GetIndex() < element.GetIndex() {
-		bq.len++
-		bq.queue[pos] = element""", """	free := bq.queue[pos] == bq.nilQ
-	if !free {
-		free = bq.queue[pos].GetIndex() < element.GetIndex()
+		// A stale element being replaced is counted already, len is the
+		// number of occupied slots.
+		if bq.queue[pos] == bq.nilQ {
+			bq.len++
+		}
+		bq.queue[pos] = element""", """	empty := bq.queue[pos] == bq.nilQ
+	usable := empty
+	if !usable {
+		usable = bq.queue[pos].GetIndex() < element.GetIndex()
 	}
-	if free {
-		bq.len++
+	if usable {
+		// A stale element being replaced is counted already, len is the
+		// number of occupied slots.
+		if empty {
+			bq.len++
+		}
 		bq.queue[pos] = element""")])]),
  ("mempool-add-demorgan", ["C08"], "Pool.Add: capacity test written with the operands swapped",
   [("pkg/core/mempool/mem_pool.go", [("if len(mp.verifiedTxes) == mp.capacity {", "if mp.capacity == len(mp.verifiedTxes) {")])]),
@@ -134,11 +143,13 @@ func (p *Policy) cacheFeePerByte(ic *interop.Context, value int64) {
 					hasOracle = true
 				}""", """				hasOracle = hasOracle || tx.Signers[i].Account.Equals(h)""")])]),
  ("queue-len-helper-under-lock", ["C20"], "Queue.Run: the guarded decrement moved into a helper method that is only called with the lock held",
-  [("pkg/network/bqueue/queue.go", [("""			bq.queueLock.Lock()
-			bq.len--
-			l := bq.len""", """			bq.queueLock.Lock()
-			bq.decLen()
-			l := bq.len"""), ("""// Put enqueues""", """func (bq *Queue[Q]) decLen() {
+  [("pkg/network/bqueue/queue.go", [("""			if bq.queue[pos] == b {
+				bq.queue[pos] = bq.nilQ
+				bq.len--
+			}""", """			if bq.queue[pos] == b {
+				bq.queue[pos] = bq.nilQ
+				bq.decLen()
+			}"""), ("""// Put enqueues""", """func (bq *Queue[Q]) decLen() {
 	bq.len--
 }
 
@@ -475,6 +486,41 @@ func (s *service) getValidators(txes ...dbft.Transaction[util.Uint256]) []dbft.P
   [("pkg/core/statesync/module.go", [("			childrenPaths[h] = append(childrenPaths[h], paths...) // it's OK to have duplicates, they'll be handled by mempool", "			merged := append(childrenPaths[h], paths...) // it's OK to have duplicates, they'll be handled by mempool\n			childrenPaths[h] = merged")])]),
  ("r5-putbatchintoleaf-hash-captured", ["C11", "C10"], "putBatchIntoLeaf: the released node's hash and bytes captured in locals first",
   [("pkg/core/mpt/batch.go", [("	t.removeRef(curr.Hash(), curr.Bytes())\n", "	oldHash, oldBytes := curr.Hash(), curr.Bytes()\n	t.removeRef(oldHash, oldBytes)\n")])]),
+ # ---- fifth batch: edits aimed at the rules written after round 5 ----
+ ("r6-remove-detach-via-helper-local", ["C12", "C13"], "REMOVE (map arm): the removed entry's key and value bound to locals before Drop",
+  [("pkg/vm/vm.go", [("""				removed := t.Value().([]stackitem.MapElement)[index]
+				t.Drop(index)
+				if t.IsReferenced() {
+					v.refs.Remove(removed.Key)
+					v.refs.Remove(removed.Value)
+				}""", """				entry := t.Value().([]stackitem.MapElement)[index]
+				oldKey, oldValue := entry.Key, entry.Value
+				t.Drop(index)
+				if t.IsReferenced() {
+					v.refs.Remove(oldKey)
+					v.refs.Remove(oldValue)
+				}""")])]),
+ ("r6-calledby-zero-guard-split", ["C15"], "ConditionCalledByContract.Match: the zero-hash guard written as an early return",
+  [("pkg/core/transaction/witness_condition.go", [("""	return !calling.Equals(util.Uint160{}) && util.Uint160(*c).Equals(calling), nil""", """	if calling.Equals(util.Uint160{}) {
+		return false, nil
+	}
+	return util.Uint160(*c).Equals(calling), nil""")])]),
+ ("r6-conflict-dedupe-by-hash-set", ["C08"], "checkTxConflicts: locals renamed (the membership tests stay on the slice)",
+  [("pkg/core/mempool/mem_pool.go", [rn("conflictsToBeRemoved", "toReplace"), rn("conflictingFee", "feeToOutbid")])]),
+ ("r6-blockaccount-continuation-renamed", ["C01", "C05"], "BlockAccountInternalDeferrable: continuation and its locals renamed",
+  [("pkg/core/native/policy.go", [("	continuation := func() {\n		// The position is taken here", "	afterRevoke := func() {\n		// The position is taken here"), ("p.NEO.RevokeVotesDeferrable(ic, hash, continuation)", "p.NEO.RevokeVotesDeferrable(ic, hash, afterRevoke)"), ("		if !continuationScheduled { // ignore error, as in the reference.\n			continuation()\n		}\n		return\n	}\n\n	continuation()\n}", "		if !continuationScheduled { // ignore error, as in the reference.\n			afterRevoke()\n		}\n		return\n	}\n\n	afterRevoke()\n}")])]),
+ ("r6-transferlog-owned-renamed", ["C02", "C09"], "TokenTransferLog: the ownership flag renamed and tested the other way round",
+  [("pkg/core/state/tokens.go", [rn("owned", "private"), ("	if !lg.private {\n		// Never write", "	if lg.private == false {\n		// Never write")])]),
+ ("r6-seek-snapshot-view-renamed", ["C09", "C02"], "storage: the snapshot view type and the lower-layer locals renamed",
+  [("pkg/core/storage/memcached_store.go", [rn("seekSnapshot", "frozenView"), rn("lps", "belowStore"), rn("lmem", "belowItems")])]),
+ ("r6-jump-genesis-guard-local", ["C02", "C20"], "jumpToStateInternal: the page test bound to a local first",
+  [("pkg/core/blockchain.go", [("			if bc.HeaderHeight()+1 >= headerBatchCount {\n				_, err = cache.DeleteBlock(genesisBlock.Hash())", "			pageComplete := bc.HeaderHeight()+1 >= headerBatchCount\n			if pageComplete {\n				_, err = cache.DeleteBlock(genesisBlock.Hash())")])]),
+ ("r6-getvarsize-arm-reshaped", ["C17"], "io.GetVarSize: the pointer-receiver arm takes the interface type into a local first",
+  [("pkg/io/size.go", [("				if reflect.PointerTo(v.Type().Elem()).Implements(reflect.TypeFor[Serializable]()) {", "				serT := reflect.TypeFor[Serializable]()\n				if reflect.PointerTo(v.Type().Elem()).Implements(serT) {")])]),
+ ("r6-extension-decoder-guard-reordered", ["C10", "C17"], "ExtensionNode decoder: the empty-child test written with the operands swapped and the error made first",
+  [("pkg/core/mpt/extension.go", [("	if r.Err == nil && isEmpty(no.Node) {", "	if isEmpty(no.Node) && r.Err == nil {")])]),
+ ("r6-inblock-conflict-check-helper", ["C06", "C19"], "AddBlock: the conflict hash bound to a differently named local, message changed",
+  [("pkg/core/blockchain.go", [("				h := attr.Value.(*transaction.Conflicts).Hash\n				if _, ok := seen[h]; ok {\n					return fmt.Errorf(\"invalid block: transaction %s conflicts with transaction %s of the same block\", tx.Hash().StringLE(), h.StringLE())", "				named := attr.Value.(*transaction.Conflicts).Hash\n				if _, found := seen[named]; found {\n					return fmt.Errorf(\"invalid block: %s and %s exclude each other\", tx.Hash().StringLE(), named.StringLE())")])]),
 ]
 
 out = "/verif/benign"
